@@ -1014,6 +1014,9 @@ func Replay(path string, verbose bool) int {
 	}
 	th := fmt.Sprintf("%016x", out.TraceHash)
 	fmt.Printf("violation class=%s step=%d: %s\n", out.V.Class, out.V.Step, out.V.Msg)
+	if len(out.V.Attrs) > 0 {
+		fmt.Printf("note: attributes %v\n", out.V.Attrs)
+	}
 	if out.V.Class != rf.Class {
 		fmt.Printf("note: class differs from recorded %s\n", rf.Class)
 	}
